@@ -427,9 +427,12 @@ fn check_tree(tree: &Value) {
         assert!(key_less(tree, &pair[0], &pair[1]), "{name}: leaf order");
     }
 
-    if matches!(tree["kind"].as_str().unwrap(), "table" | "multimap") {
-        // the definition repeats the length of its root record
-        assert_eq!(tree["root_len"], tree["stored_len"], "{name}: root length");
+    match tree["kind"].as_str().unwrap() {
+        // the definition of a normal table repeats the length of its root record
+        "table" => assert_eq!(tree["root_len"], tree["stored_len"], "{name}: root length"),
+        // the root record of a multimap counts keys, its definition counts values
+        "multimap" => assert_eq!(tree["root_len"], all.len() as u64, "{name}: root length"),
+        _ => {}
     }
     match tree["kind"].as_str().unwrap() {
         "table" | "master" | "subtree" => {
